@@ -53,6 +53,33 @@ def stages(tier, rng, only=None):
         + [ac.two_cycles(rng) for _ in range(12 if tier == "quick" else 100)]
         + [ac.cycle_plus(rng) for _ in range(60 if tier == "quick" else 600)], 1, 6), _nt_run))
     nq = 60 if tier == "quick" else 600
+    # six or seven elements, three or four rankings with ties and missing elements: several non-trivial components in a
+    # row, each handed to the exact model or to the auxiliary algorithm according to the bound
+    out.append(ac.stage("several_components", PID, lambda: ac.cases(
+        [ac.random_dataset(rng, 7, 4, nmin=6) for _ in range(150 if tier == "quick" else 1500)],
+        ["ParCons(b0,BioConsert)", "ParCons(b2,Borda)", "ParCons(b3,BioConsert)", "ParCons(b0,BioCo)", "ParCons(b1,KwikSort)",
+         "ParCons"], [ac.P_UNI1, ac.P_UNI5, ac.P_IND1, ac.P_PSE5], flags=(1,)), _nt_run))
+    def multi():
+        # corpus picked with tools/find_multi_component.py (the library only selects the inputs): two or more consecutive
+        # groups of three elements or more that cannot be all tied
+        import json
+        import os
+        corpus = json.load(open(os.path.join(os.path.dirname(os.path.dirname(__file__)), "corpus", "multi_component.json")))
+        rng.shuffle(corpus)
+        cs = []
+        sch = [ac.P_UNI1, ac.P_UNI5, ac.P_IND1]
+        for ent in corpus[:(60 if tier == "quick" else 287)]:
+            cs += ac.cases([ent["D"]], ["ParCons(b0,BioConsert)", "ParCons(b2,Borda)", "ParCons(b0,BioCo)", "ParCons(b1,KwikSort)",
+                                        "ParCons(b3,BioConsert)"], [sch[ent["sch"]]], flags=(1,))
+        return cs
+    out.append(ac.stage("consecutive_components", PID, multi, _nt_run))
+    # history: the dataset (with an empty ranking among others) serves, is modified in place, serves again
+    out.append(ac.stage("reuse_after_mutation", PID, lambda: ac.reuse_mutate_cases(
+        [D for D in grids.datasets(3, 2) if [] in D][::2]
+        + [ac.cyclic_dataset(rng, 3, 5, incomplete=k % 2 == 1) + [[]] for k in range(nq)]
+        + [ac.random_dataset(rng, 5, 4, nmin=3) + [[]] for _ in range(nq)],
+        ["ParCons", "ParCons(b0,BioConsert)", "ParCons(b2,Borda)"], [ac.P_UNI5, ac.P_UNI1, ac.P_EXT, ac.QUARTER], rng,
+        all_ops=True), _nt_run))
     out.append(ac.stage("reuse_other_dataset", PID, lambda: ac.reuse_other_cases(
         [ac.cyclic_dataset(rng, 3, 5) for _ in range(nq)] + [ac.cycle_plus(rng) for _ in range(nq)]
         + grids.datasets(3, 2)[::10], PARCONS, SCHEMES, rng), _nt_run))
